@@ -468,7 +468,19 @@ def run(ctx):
         if not inserts:
             continue
         cs = set()
-        for site in x_.lock_sites:
+        # the id may be drawn by a helper (`allocate_handle_id()`): counters locked by crate-local callees count, to depth 3
+        sites, seen_, work_ = list(x_.lock_sites), {p_}, [(p_, 0)]
+        while work_:
+            q_, d_ = work_.pop()
+            if d_ >= 3:
+                continue
+            for bb2, t2 in mirg.iter_calls(fl[q_].fn):
+                cq = mirg.callee(t2) or ""
+                if cq in fl and cq not in seen_:
+                    seen_.add(cq)
+                    sites += list(fl[cq].lock_sites)
+                    work_.append((cq, d_ + 1))
+        for site in sites:
             sname = site[1]
             sty = ""
             for a_ in st.items.get("statics", []) if isinstance(st.items.get("statics"), list) else []:
